@@ -219,6 +219,12 @@ fn err_event(api: &str, p: usize, limit: usize, e: &Error) -> Value {
 /// the receiver of an offer: flows of different request methods, a third of them with an Expect handshake that timed out
 fn flow_for_offers(g: &GenHead) -> ureq_proto::client::flow::Flow<(), ureq_proto::client::flow::state::RecvResponse> {
     let k = g.h + g.fields.len();
+    if k % 3 == 2 && (k / 3) % 2 == 1 && g.status != 100 {
+        // the head now offered was already seen (and not consumed) while the request awaited 100-continue
+        if let Some(f) = crate::fx::flow_recv_response_after_refusal(["POST", "PUT", "PATCH"][(k / 6) % 3], &g.bytes[..g.h]) {
+            return f;
+        }
+    }
     if k % 3 == 2 {
         flow_recv_response_after_timeout(["POST", "PUT", "PATCH"][k % 3])
     } else {
@@ -489,6 +495,26 @@ pub fn c05(o: &Opts, t: &mut Tracer) -> Value {
             offers += 2;
         }
     }
+    // long field values with one non-ASCII character (Latin-1 byte, 2- and 3-byte UTF-8) at every offset around the lengths at
+    // which a value might be cut for display (32, 64, 128, 256): whatever is done with the value, the head is answered
+    for base in [32usize, 64, 128, 256] {
+        for off in (base - 4)..=(base + 4) {
+            for (j, ch) in [&b"\xfc"[..], "\u{fc}".as_bytes(), "\u{20ac}".as_bytes()].iter().enumerate() {
+                let mut v = vec![b'a'; off];
+                v.extend(*ch);
+                v.extend(b"fung 2025.pdf\"");
+                v.extend(vec![b'z'; 300 - off.min(290)]);
+                let g = manual_head([200u16, 404, 302][j], &[("Content-Disposition", &v[..]), ("Content-Length", b"0")]);
+                selfcheck_head(&g);
+                t.case(json!({"ev":"case","comp":"head","lay":g.lay(),"note":format!("directed non-ascii at {} ({} bytes)", off, ch.len())}));
+                t.sig(format!("directed-nonascii/{}/{}", off, j));
+                offer_to_method(t, &g, METHODS[(off + j) % 9]);
+                offer_flow(t, &g, g.h, "call");
+                offers += 2;
+            }
+        }
+    }
+    t.class("offer:non-ascii-at-display-boundaries");
     // framing fields on responses that have no body by rule (2xx to CONNECT, HEAD, 204, 304): still fields of the head
     for (k, method) in ["CONNECT", "HEAD", "GET", "POST", "CONNECT"].iter().enumerate() {
         for status in [200u16, 204, 304, 201, 299] {
@@ -705,7 +731,7 @@ pub fn c06(o: &Opts, t: &mut Tracer) -> Value {
                         };
                         let mut head = format!("HTTP/1.{} {} R\r\n", if http10 { 0 } else { 1 }, status);
                         // legal fields of no consequence ahead of the framing fields, some with empty values
-                        head.push_str(["", "X-Cache:\r\n", "Vary: \r\nX-Empty:\r\n", "Server: s\r\n"][(status as usize / 5 + mi + ci + ti) % 4]);
+                        head.push_str(["", "X-Cache:\r\n", "Vary: \r\nX-Empty:\r\n", "Server: s\r\n", "Upgrade: websocket\r\nConnection: Upgrade\r\n", "Upgrade: h2c\r\n"][(status as usize / 5 + mi + ci + ti) % 6]);
                         let te_first = pick % 2 == 0;
                         if te_first && *te != "absent" {
                             head.push_str(&format!("Transfer-Encoding: {}\r\n", te_text));
@@ -722,7 +748,8 @@ pub fn c06(o: &Opts, t: &mut Tracer) -> Value {
                         }
                         // the framing decision must not depend on whether the connection is going to be closed anyway
                         let closing = (status as usize / 2 + mi + ci + 2 * ti) % 5;
-                        head.push_str(if closing == 4 { "Connection: close\r\n\r\n" } else { "X-Other: 1\r\n\r\n" });
+                        // ... nor on a promise to keep it open
+                        head.push_str(match closing { 4 => "Connection: close\r\n\r\n", 3 => "Connection: keep-alive\r\n\r\n", 2 => "Keep-Alive: timeout=5, max=100\r\nConnection: Keep-Alive\r\n\r\n", _ => "X-Other: 1\r\n\r\n" });
                         if closing != 0 {
                             t.class("cell:closing-connection");
                         }
